@@ -4,7 +4,11 @@ sub-agent's output directory not filed yet) applied to a scratch worktree (never
 import glob, json, os, re, subprocess, sys
 VERIF = os.path.dirname(os.path.dirname(os.path.abspath(__file__)))
 ALL = ["C01", "C02", "C03", "C04", "C05", "C06", "C08", "C09", "C10", "C11", "C12", "C13", "C14", "C15", "C16", "C17", "C18", "C20"]
-WT = "/tmp/wt_scratch"
+WT = os.environ.get("VK_WT", "/tmp/wt_scratch")   # one scratch worktree per concurrently running shard
+SHARD = next((a.split("=")[1] for a in sys.argv[1:] if a.startswith("--shard=")), "0/1")   # --shard=i/n: every n-th patch
+ONLY = os.environ.get("VK_ONLY")   # VK_ONLY=C05,C20: only these checks (after a change confined to their rules)
+if ONLY:
+    ALL = [p for p in ALL if p in ONLY.split(",")]
 args = [a for a in sys.argv[1:] if not a.startswith("--")]
 pat = re.compile(args[0] if args else ".")
 update = "--update" in sys.argv
@@ -20,8 +24,9 @@ if not os.path.isdir(WT):
     # the scratch worktree of /repo the patches are applied to (removed again with `git -C /repo worktree remove --force`)
     subprocess.run(f"git -C /repo worktree add --detach {WT} HEAD -f", shell=True, check=True, capture_output=True)
 fa_total = und_total = 0
-for name, diff in sorted(items.items()):
-    if not pat.search(name):
+si, sn = (int(x) for x in SHARD.split("/"))
+for k, (name, diff) in enumerate(sorted((n, d) for n, d in items.items() if pat.search(n))):
+    if k % sn != si:
         continue
     subprocess.run(f"git -C {WT} checkout -q -- . && git -C {WT} apply --whitespace=nowarn {diff}", shell=True, check=True)
     procs = {p: subprocess.Popen(f"cd {VERIF} && VK_REPO={WT} ./check {p} quick", shell=True, text=True, stdout=subprocess.PIPE, stderr=subprocess.STDOUT) for p in ALL}
